@@ -12,7 +12,7 @@ oracle       : judges the implementation's observation alone (undefined members,
                changed or unreadable after later state changes / stop, snapshot != single getter)."""
 import os, re, subprocess, shutil, json
 import vlib
-from vlib import Rng
+from vlib import Rng, hexs
 
 NOARG = ["state", "boards", "boards_connected", "connected_points", "connected_signals", "connected_peripherals",
          "connected_segments", "connected_reversers", "connected_boosters", "boosters", "track_outputs",
@@ -116,7 +116,7 @@ def gen_config(r, d, k):
               "signals_dcc": [acc(True) for _ in range(r.choice([0, 1, 2]))],
               "peripherals": [{"id": next(names), "number": i, "port": 0x0100 + i, "aspects": [next(names) for _ in range(r.range(1, 2))]} for i in range(r.choice([0, 1, 2]))],
               "segments": [next(names) for _ in range(r.choice([0, 1, 3]))],
-              "reversers": [next(names) for _ in range(r.choice([0, 0, 1]))]}
+              "reversers": [next(names) for _ in range(r.choice([0, 1, 1, 2]))]}
         boards.append(bd)
     trains = [{"id": next(names), "dcc": r.range(1, 0x27) * 256 + r.range(1, 255), "peripherals": [next(names) for _ in range(r.choice([0, 1, 2]))]}
               for _ in range(r.choice([0, 1, 2, 3]))]
@@ -165,6 +165,10 @@ def gen_mutations(r, info, conn, n):
     """n state changes through the library's setters; conn: board index -> node address (top byte) when connected"""
     out = []
     B = info["boards"]
+    if conn and r.chance(1, 2):
+        # every connected board reports the state of its first reverser (the snapshot then holds a known reverser state id)
+        for bi in sorted(conn):
+            out.append("c17mut vendor %02x0000%02x%s%02x%s" % (conn[bi], 5, hexs([ord(ch) for ch in "30051"]), 1, hexs([ord(r.choice("0123"))])))
     for _ in range(n):
         k = r.below(100)
         if not B: break
@@ -175,6 +179,10 @@ def gen_mutations(r, info, conn, n):
                 out.append("c17mut lost %s" % b["uid"]); del conn[bi]
             else:
                 conn[bi] = bi + 1; out.append("c17mut new 000000%02x%s" % (bi + 1, b["uid"]))
+        elif k < 19:
+            # reverser feedback (MSG_VENDOR): cv 30051 is the first reverser of a board; known and other cvs, values "0".."3" and odd ones
+            cv = r.choice(["30051", "30051", "30051", "30052", "9"]); val = r.choice(["0", "1", "2", "3", "", "x"])
+            out.append("c17mut vendor %s%02x%s%02x%s" % (a, len(cv), hexs([ord(ch) for ch in cv]), len(val), hexs([ord(ch) for ch in val])))
         elif k < 24 and b["accnum"]:
             out.append("c17mut acc %s%02x%02x%02x%02x%02x" % (a, r.choice(b["accnum"]), r.below(3), 3, r.choice([0, 1, 2, 3, 0x80]), r.below(4)))
         elif k < 30: out.append("c17mut boost %s%02x" % (a, r.choice([0, 1, 2, 3, 4, 5, 6, 0x80, 0x81, 0x82, 0x83, 0x84])))
